@@ -880,6 +880,8 @@ def run(ctx: core.Check, cases=None):
         "denominators) relative to max(|value|, input scale)",
         "square roots (np.sqrt, **0.5) are inputs of the model: computed here by the same numpy/Python call and sent on the wire; "
         "the theorems assume s>=0 and s*s = argument",
+        "min_max_mean_std/var within 1e-9 (relative) of the maximal dispersion but not exactly at it: the exact bound is discontinuous in "
+        "the inputs there, model and code are compared on outcome kind only (the oracle still runs)",
         "Params.steps = 200 and Params.p_values = linspace(.001,.999,200) are pinned; the 'next' interpolation of 199 values is "
         "modelled by its result [r0..r198,r198]",
         "arguments are Python int/float (numpy scalars would turn ZeroDivisionError into inf/nan); percentiles= is not modelled; "
@@ -908,7 +910,16 @@ def run(ctx: core.Check, cases=None):
         impl = run_impl(fn, A, via)
         model = parse_model(rep)
         rel = 1e-8 if ctor.startswith("min_max_mean_") else 1e-11
-        if agrees(impl, model, in_scale(A), rel, 1 if ctor.startswith("min_max_mean_") else 0):
+        ft = feats_of(fn, A, stream, via)
+        ill = (ft.get("dispersion_ratio", 0) >= 1 - 1e-9 and ft.get("dispersion_ratio", 0) <= 1
+               and not ft.get("dispersion_exactly_maximal", False))
+        if ill and impl[0] == "ok" and model[0] == "ok" and impl[1] != "parametric":
+            # within rounding of maximal dispersion the exact bound is a discontinuous function of the inputs (it jumps to
+            # the two-point law on {min,max}); no binary64 evaluation can follow the exact model there.  Compared on
+            # outcome kind only; the oracle below still checks enclosure and non-vacuity of what the code returns.
+            ctx.bump("tie:ill-conditioned(kind only)")
+            ctx.tie_ok()
+        elif agrees(impl, model, in_scale(A), rel, 1 if ctor.startswith("min_max_mean_") else 0):
             ctx.tie_ok()
         else:
             ctx.tie_bad(stream, {"fn": fn, "args": _ja(A), "via": via}, _ji(impl), _ji(model))
